@@ -20,7 +20,7 @@ CLAIMED = {
          "Proof: C05_invariant (every reachable state), C05_exact, C05_position_after_eof (taken = ceil(endBit/8), the unread stream is exactly the suffix) are kernel-checked for every bufio size, chunking and read pattern; tie: R correspondence compares the bytes consumed from the bufio.Reader in lock-step; oracle: stream+suffix over bufio sizes 16..64K, NewReader and Reset, flate/gzip/zlib. Non-bufio ByteReaders are over-read by the library: known finding F-C05-1.",
          RT, "DESIGN.md section 6 C05"),
  "C06": ("Lean 4 round-trip theorems for the gzip and zlib header/trailer formats (parse (emit h) = h for every representable header; trailer = checksum of the concatenated writes) + byte-level correspondence + both-direction interop oracle",
-         "Proof: C06_gzip_header_roundtrip (all optional fields, every level), C06_gzip_trailer, C06_zlib_header_roundtrip / _fcheck (FLEVEL, FDICT, DICTID, FCHECK), C06_zlib_trailer, C06_gzip_member_reads_back are kernel-checked for all headers/payloads/partitions; tie: K correspondence on the bytes fastgo emits and accepts; oracle: fastgo->stdlib and stdlib->fastgo round trips (fields, payload, trailer recomputed) over levels, partitions, Reset reuse, dictionaries.",
+         "Proof: C06_gzip_header_roundtrip (all optional fields, every level), C06_gzip_trailer, C06_zlib_header_roundtrip / _fcheck (FLEVEL, FDICT, DICTID, FCHECK), C06_zlib_trailer, C06_gzip_member_reads_back, and C06_gzip_writer_emits_member / C06_zlib_writer_emits_stream (after Close, for any accepted call history, the destination holds header ++ one complete DEFLATE stream of the data ++ trailer of the data; inner Writer under its stream contract) are kernel-checked for all headers/payloads/partitions; tie: K correspondence on the bytes fastgo emits and accepts, ZW / GW correspondences on the Writer control flow incl. header and trailer bytes under Reset and injected faults; oracle: fastgo->stdlib and stdlib->fastgo round trips (fields, payload, trailer recomputed) over levels, partitions, Reset reuse, dictionaries.",
          CT, "DESIGN.md section 6 C06"),
  "C07": ("Lean 4 theorem over the gzip/zlib Read loops with the inflater as an arbitrary environment: io.EOF implies checksum (and length) of the delivered bytes equal the trailer; Read counts are payload counts + truncation/bit-flip oracle",
          "Proof: C07_gzip_eof_is_checked, C07_zlib_eof_is_checked (for every sequence of inflater answers, every Read size), C07_gzip_counts / C07_zlib_counts, C07_gzip_truncated_trailer; tie: K correspondence and the oracle cutting containers at every byte and flipping bits in header / payload / trailer (default and Multistream(false), FHCRC members, tiny Read buffers).",
@@ -68,8 +68,8 @@ CLAIMED.update({
  "C03": ("Lean 4 theorems over the Reader control model: no fabricated byte (also after Reset), io.EOF only after a complete stream, error kinds determined by the decoder's verdict and the source's EOF, errors sticky; decoder contracts Sane + Faithful; I and R correspondences + fault-injection oracle bounded by the permissive reference inflater (upper) and compress/flate (lower)",
          "Proof (partial): C03_no_fabrication, C03_reset_forgets, C03_eof_only_if_complete, C03_error_kinds, C03_sticky are kernel-checked for all inputs/histories under the decoder contracts. Not proved: absence of panics/hangs in the decoder proper and its Faithfulness on malformed input (stale tables, unassigned codes): oracle with 17 fault kinds, truncation at every byte, reuse after other streams, recovered panics + watchdog, at every level.",
          RT + LT, "DESIGN.md section 6 C03"),
- "C10": ("Lean 4 stream-composition proof: after every successful Flush the destination holds a chain of complete non-final blocks (ending with the empty stored block, byte aligned, nothing in the bit carry) that the specification inflater decodes to all data so far and then asks for more at a block boundary; the invariant continues to hold for later Write/Flush/Close; dynamic and Huffman-only compressors; correspondences I, W, H, G + flush-prefix oracle with compress/flate and the reference inflater",
-         "Proof (partial): C10_flush_point, C10_stream_stays_valid (dynamic compressor) and C10_flush_point_huff (Huffman-only) are kernel-checked for ALL data and Write/Flush/Reset histories under the leaf contracts Sound / HSound (as C01). Oracle only: gzip/zlib framing, delegated levels.",
+ "C10": ("Lean 4 stream-composition proof: after every successful Flush the destination holds a chain of complete non-final blocks (ending with the empty stored block, byte aligned, nothing in the bit carry) that the specification inflater decodes to all data so far and then asks for more at a block boundary; the invariant continues to hold for later Write/Flush/Close; dynamic and Huffman-only compressors, and the gzip/zlib Writer models on top of them; correspondences I, W, H, ZW, GW, G + flush-prefix oracle with compress/flate and the reference inflater",
+         "Proof (partial): C10_flush_point, C10_stream_stays_valid (dynamic compressor) and C10_flush_point_huff (Huffman-only) and C10_flush_point_zlib / C10_flush_point_gzip (container Writer models over any inner Writer meeting the stream contract; dynStream / huffStream prove the two flate Writer models meet it) are kernel-checked for ALL data and Write/Flush/Reset histories under the leaf contracts Sound / HSound (as C01). Oracle only: delegated levels, dictionaries, Latin-1/time conversions.",
          WT + LT, "DESIGN.md section 6 C10"),
  "C19": ("Lean 4: uint32/uint16 arithmetic of the window test (accepts exactly 1..window), distance-symbol table round trip over all 32768 distances (decide +kernel), regenerated facts on the code shape and constructor windows, and checkGen_sound: a recorded match-finder call that passes the executable check only emitted matches within the window; G correspondence applies that check to Go AND assembly match finders at every level; traced-inflater oracle on window-edge families",
          "Proof (partial): C19_accept_bounds, C19_reject_outside, C19_emitted_distance, C19_window, C19_checked_call are kernel-checked; C19_code_shape / C19_constructor_windows are decided over facts regenerated from /repo on every run. The assembly match finders have no Lean model: every recorded call is checked (G) and the maximum distance of every output is measured by the reference inflater at each level.",
